@@ -12,6 +12,8 @@ def corr(rng, tier):
 
 def search(rng, tier, broken, cases):
     S = IS.search_c03(rng, 72 if tier == "quick" and not broken else 720)
+    import dtypesearch
+    dtypesearch.search_dtype(rng, 12 if tier == "quick" and not broken else 60, ['ghost'], pid="C03", S=S)   # same numbers typed int64 vs float64
     return S.violations, S.stats()
 
 
